@@ -38,7 +38,8 @@ EXTRA_MODULES = {
     "C12": ["Proofs.C12", "Proofs.C12Source"],
     "C14": ["Proofs.C14", "Proofs.C14Source"],
     "C18": ["Proofs.C18"],
-    "C19": ["Proofs.C19", "Proofs.E2EToken", "Proofs.E2EUnits", "Proofs.E2EScan", "Proofs.E2ECompile", "Proofs.E2EEquiv"],
+    "C19": ["Proofs.C19", "Proofs.E2ESpell", "Proofs.E2ELex", "Proofs.E2EToken", "Proofs.E2EUnits", "Proofs.E2EScan", "Proofs.E2ECompile",
+            "Proofs.E2EEquiv"],
     "C01": ["Proofs.C01", "Proofs.NoPanic", "Proofs.StdNoPanic", "Proofs.ArrNoPanic", "Proofs.JsonFilter"],
     "C02": ["Proofs.C02", "Proofs.JsonFilter"],
     "C03": ["Proofs.C03"],
